@@ -5,6 +5,7 @@ from mindsdb_sql.exceptions import PlanningException
 from mindsdb_sql.parser.ast import (Identifier, Operation, Star, Select, BinaryOperation, Constant,
                                     OrderBy, UnaryOperation, NullConstant, TypeCast, Parameter)
 from mindsdb_sql.parser import ast
+from mindsdb_sql.parser.dialects.mindsdb.knowledge_base import CreateKnowledgeBase
 
 
 # def get_integration_path_from_identifier(identifier):
@@ -100,10 +101,11 @@ def query_traversal(node, callback, is_table=False, is_target=False, parent_quer
         return res
 
     if isinstance(node, ast.Select):
-        if node.from_table is not None:
-            node_out = query_traversal(node.from_table, callback, is_table=True, parent_query=node)
-            if node_out is not None:
-                node.from_table = node_out
+        if node.cte is not None:
+            for cte in node.cte:
+                node_out = query_traversal(cte.query, callback, parent_query=node)
+                if node_out is not None:
+                    cte.query = node_out
 
         array = []
         for node2 in node.targets:
@@ -114,12 +116,10 @@ def query_traversal(node, callback, is_table=False, is_target=False, parent_quer
                 array.append(node_out)
         node.targets = array
 
-        if node.cte is not None:
-            array = []
-            for cte in node.cte:
-                node_out = query_traversal(cte.query, callback, parent_query=node) or cte
-                array.append(node_out)
-            node.cte = array
+        if node.from_table is not None:
+            node_out = query_traversal(node.from_table, callback, is_table=True, parent_query=node)
+            if node_out is not None:
+                node.from_table = node_out
 
         if node.where is not None:
             node_out = query_traversal(node.where, callback, parent_query=node)
@@ -145,6 +145,16 @@ def query_traversal(node, callback, is_table=False, is_target=False, parent_quer
                 array.append(node_out)
             node.order_by = array
 
+        if node.limit is not None:
+            node_out = query_traversal(node.limit, callback, parent_query=node)
+            if node_out is not None:
+                node.limit = node_out
+
+        if node.offset is not None:
+            node_out = query_traversal(node.offset, callback, parent_query=node)
+            if node_out is not None:
+                node.offset = node_out
+
     elif isinstance(node, (ast.Union, ast.Intersect, ast.Except)):
         node_out = query_traversal(node.left, callback, parent_query=node)
         if node_out is not None:
@@ -154,12 +164,12 @@ def query_traversal(node, callback, is_table=False, is_target=False, parent_quer
             node.right = node_out
 
     elif isinstance(node, ast.Join):
-        node_out = query_traversal(node.right, callback, is_table=True, parent_query=parent_query)
-        if node_out is not None:
-            node.right = node_out
         node_out = query_traversal(node.left, callback, is_table=True, parent_query=parent_query)
         if node_out is not None:
             node.left = node_out
+        node_out = query_traversal(node.right, callback, is_table=True, parent_query=parent_query)
+        if node_out is not None:
+            node.right = node_out
         if node.condition is not None:
             node_out = query_traversal(node.condition, callback, parent_query=parent_query)
             if node_out is not None:
@@ -173,8 +183,15 @@ def query_traversal(node, callback, is_table=False, is_target=False, parent_quer
             array.append(node_out)
         node.args = array
 
+        if isinstance(node, ast.Function) and node.from_arg is not None:
+            node_out = query_traversal(node.from_arg, callback, parent_query=parent_query)
+            if node_out is not None:
+                node.from_arg = node_out
+
     elif isinstance(node, ast.WindowFunction):
-        query_traversal(node.function, callback, parent_query=parent_query)
+        node_out = query_traversal(node.function, callback, parent_query=parent_query)
+        if node_out is not None:
+            node.function = node_out
         if node.partition is not None:
             array = []
             for node2 in node.partition:
@@ -227,11 +244,6 @@ def query_traversal(node, callback, is_table=False, is_target=False, parent_quer
             if node_out is not None:
                 node.table = node_out
 
-        if node.where is not None:
-            node_out = query_traversal(node.where, callback, parent_query=node)
-            if node_out is not None:
-                node.where = node_out
-
         if node.update_columns is not None:
             changes = {}
             for k, v in node.update_columns.items():
@@ -245,6 +257,11 @@ def query_traversal(node, callback, is_table=False, is_target=False, parent_quer
             node_out = query_traversal(node.from_select, callback, parent_query=node)
             if node_out is not None:
                 node.from_select = node_out
+
+        if node.where is not None:
+            node_out = query_traversal(node.where, callback, parent_query=node)
+            if node_out is not None:
+                node.where = node_out
 
     elif isinstance(node, ast.CreateTable):
         array = []
@@ -265,10 +282,33 @@ def query_traversal(node, callback, is_table=False, is_target=False, parent_quer
                 node.from_select = node_out
 
     elif isinstance(node, ast.Delete):
+        if node.table is not None:
+            node_out = query_traversal(node.table, callback, is_table=True, parent_query=node)
+            if node_out is not None:
+                node.table = node_out
+
         if node.where is not None:
             node_out = query_traversal(node.where, callback, parent_query=node)
             if node_out is not None:
                 node.where = node_out
+
+    elif isinstance(node, ast.Show):
+        if node.where is not None:
+            node_out = query_traversal(node.where, callback, parent_query=node)
+            if node_out is not None:
+                node.where = node_out
+
+    elif isinstance(node, ast.Set):
+        if node.value is not None:
+            node_out = query_traversal(node.value, callback, parent_query=node)
+            if node_out is not None:
+                node.value = node_out
+
+    elif isinstance(node, CreateKnowledgeBase):
+        if node.from_query is not None:
+            node_out = query_traversal(node.from_query, callback, parent_query=node)
+            if node_out is not None:
+                node.from_query = node_out
 
     elif isinstance(node, ast.OrderBy):
         if node.field is not None:
@@ -291,9 +331,10 @@ def query_traversal(node, callback, is_table=False, is_target=False, parent_quer
             result = result if result2 is None else result2
             rules.append([condition, result])
         node.rules = rules
-        default = query_traversal(node.default, callback, parent_query=parent_query)
-        if default is not None:
-            node.default = default
+        if node.default is not None:
+            default = query_traversal(node.default, callback, parent_query=parent_query)
+            if default is not None:
+                node.default = default
 
     elif isinstance(node, list):
         array = []
